@@ -916,6 +916,8 @@ class Builtins:
             if isinstance(args[0], VRef) and st.heap[args[0].oid].meta.get("concrete_only"):
                 return self.new_list_from_values(list(st.heap[args[0].oid].meta["pyitems"]), st, k)
             return self.consume(args[0], st, lambda s, st2: self.new_list(s, st2, k))
+        if name == "tuple" and len(args) == 1:
+            return self.consume(args[0], st, lambda sq, st2: self.new_list(sq, st2, k, kind="tuple"))
         if name == "dict":
             if not args and not kwargs:
                 r, st2 = self.alloc(st, HObj("dict", EMPTY_MAP))
